@@ -16,7 +16,7 @@ LEVEL = "exploration"
 RULE = ("every integer 1..3999 (roman numerals, both directions); every sequence over {0,1,2} up to the "
         "tier's length bound as list/tuple/str for sub_seq, search_sub_seq, compare_pos_in_iterables, arg_sort "
         "(both directions); every (n, batch_size) pair up to the bound for Batcher/BatcherIter with single and "
-        "tuple inputs, plus huge ranges around 2**53 and 2**62. A case is one (function, input); distinct = "
+        "tuple inputs (also members of different lengths for BatcherIter: stops at the shortest), plus huge ranges around 2**53 and 2**62. A case is one (function, input); distinct = "
         "distinct (function, input) hashes; all of them are non-trivial in the sense that the oracle compared "
         "a computed result or exception class.")
 ASSUMPTIONS = [
@@ -102,6 +102,14 @@ def check_one(case):
             got = outcome(g.compare_pos_in_iterables, fa, fb)
             if got != ("ok", want):
                 return "compare_pos", f"compare_pos_in_iterables({a},{b}) -> {got}, expected {want}", {"got": got}
+        # unhashable elements (lists) and a mix of hashable / unhashable ones, also through one-shot iterables
+        for wrap in (lambda x: [x], lambda x: [x] if x else x):
+            ua, ub = [wrap(x) for x in a], [wrap(x) for x in b]
+            for fa, fb in ((list(ua), list(ub)), (iter(list(ua)), list(ub)), ((x for x in ua), iter(list(ub)))):
+                got = outcome(g.compare_pos_in_iterables, fa, fb)
+                if got != ("ok", want):
+                    return "compare_pos", (f"compare_pos_in_iterables({ua},{ub}) (unhashable elements, "
+                                           f"{type(fa).__name__} / {type(fb).__name__}) -> {got}, expected {want}"), {"got": got}
         return None
     if fam == "argsort":
         s = case["s"]
@@ -154,6 +162,21 @@ def check_one(case):
             got = outcome(lambda: list(g.BatcherIter(mk(), b)))
             if got != ("ok", want):
                 return "batcher_iter", f"BatcherIter(n={n}, batch={b}, w={width}) -> {str(got)[:200]}", {"want": want}
+        if width >= 2:
+            # members of different lengths: documented to stop when the shortest one is finished, batches stay in lock-step
+            for cut in (0, 1, n // 2):
+                if cut >= n:
+                    continue
+                short = n - cut - 1 if n - cut - 1 >= 0 else 0
+                lens = [n, short, n][:width] if width == 3 else [n, short]
+                members = [base[k][:lens[k]] for k in range(width)]
+                m = min(lens)
+                want2 = [tuple(x[i * b:min((i + 1) * b, m)] for x in members) for i in range((m + b - 1) // b)]
+                for mk2 in (lambda: tuple(members), lambda: tuple(iter(x) for x in members)):
+                    got = outcome(lambda: list(g.BatcherIter(mk2(), b)))
+                    if got != ("ok", want2):
+                        return "batcher_iter", (f"BatcherIter(tuple of lengths {lens}, batch={b}) -> {str(got)[:200]}, expected "
+                                                f"lock-step batches up to the shortest member: {str(want2)[:200]}"), {}
         # re-iterable input (sequences): every pass over the same BatcherIter object cuts the same batches, also
         # after an abandoned pass
         bi = g.BatcherIter(base[0] if width == 0 else tuple(base), b)
